@@ -77,7 +77,9 @@ FreshWhenCommitted == \A j \in 1..Len(chain) : \A a \in 1..Len(chain[j].l) :
 (* bookkeeping *)
 Consistent == /\ st.comm = {Items[k] : k \in Committed} /\ st.pend \cap st.comm = {} /\ st.list \subseteq st.pend
               /\ st.raw \subseteq st.pend /\ \A e \in st.raw : EvH(e) > st.h   \* raw only while the block is missing
-Inv == OnlyRealEquivocators /\ AtMostOnceInChain /\ FreshWhenCommitted /\ Consistent
+(* a double sign (validator, height, round, type) is committed at most once, whatever forms of it are offered *)
+OneDoubleSignOnce == \A j, k \in Committed : j # k => DoubleSign(Items[j]) # DoubleSign(Items[k])
+Inv == OnlyRealEquivocators /\ AtMostOnceInChain /\ FreshWhenCommitted /\ Consistent /\ OneDoubleSignOnce
 
 (* reachability companions: TLC must REFUTE them (checks/C19.py), otherwise the invariants above are vacuous *)
 NothingCommitted == Committed = {}
